@@ -85,13 +85,24 @@ def check(c):
         c.guard('C43.command', n, [
             '!(cycle_point is not None)', '!(clock_time is not None)',
             '!(task is not None)'], stop)
+    # `mode = StopMode(mode.value) if mode else StopMode.REQUEST_CLEAN` (seen
+    # in its canonical if/else spelling): absent mode => clean stop
     dflt = [n for n in c.idx.walk(stop.node) if isinstance(n, ast.Assign)
             and norm(n.targets[0]) == 'mode']
-    c.floor('C43.command', 'mode default', len(dflt), 1)
-    for n in dflt:
+    c.floor('C43.command', 'mode default', len(dflt), 2)
+    absent = [n for n in dflt if c.holds(n, '!mode')]
+    c.floor('C43.command', 'mode assignment when no mode was given',
+            len(absent), 1)
+    for n in absent:
         c.ob('C43.command', c.key(n, stop) + ' defaults to a clean stop',
-             isinstance(n.value, ast.IfExp) and norm(n.value.orelse) ==
-             'StopMode.REQUEST_CLEAN', c.where(n, stop), norm(n.value))
+             norm(n.value) == 'StopMode.REQUEST_CLEAN', c.where(n, stop),
+             norm(n.value))
+    for n in dflt:
+        if n in absent:
+            continue
+        c.ob('C43.command', c.key(n, stop) + ' keeps the requested mode',
+             norm(n.value) == 'StopMode(mode.value)' and c.holds(n, 'mode'),
+             c.where(n, stop), norm(n.value))
 
     # ---- (2) set_stop_point
     sp = c.func(TP, 'TaskPool.set_stop_point')
